@@ -32,19 +32,19 @@ type FuncInfo struct {
 }
 
 type Program struct {
-	Pkg       *packages.Package
-	Fset      *token.FileSet
-	Info      *types.Info
-	Funcs     map[string]*FuncInfo
-	FuncByObj map[*types.Func]*FuncInfo
-	LitInfo   map[*ast.FuncLit]*FuncInfo
-	Contracts map[string]*Contract
-	Macros    map[string]*Macro
-	Harnesses map[string]*Harness
-	GhostFlds map[string]Sort
-	Externs   map[string]*Contract // keyed by "pkg.Func" or "pkg.Type.Method"
+	Pkg        *packages.Package
+	Fset       *token.FileSet
+	Info       *types.Info
+	Funcs      map[string]*FuncInfo
+	FuncByObj  map[*types.Func]*FuncInfo
+	LitInfo    map[*ast.FuncLit]*FuncInfo
+	Contracts  map[string]*Contract
+	Macros     map[string]*Macro
+	Harnesses  map[string]*Harness
+	GhostFlds  map[string]Sort
+	Externs    map[string]*Contract // keyed by "pkg.Func" or "pkg.Type.Method"
 	TableFacts map[string]func(v Val) []*Term
-	Warnings  []string
+	Warnings   []string
 }
 
 type Clause struct {
@@ -102,7 +102,7 @@ type Contract struct {
 	Loops     map[int]*LoopSpec
 	GhostFuns []*GhostFun
 	Lemmas    []*Lemma
-	GhostOuts []*GhostFun            // ghost result functions (witnessed per return)
+	GhostOuts []*GhostFun               // ghost result functions (witnessed per return)
 	Witness   map[int]map[string]*SExpr // return ordinal (0 = all) -> ghost-out name -> body
 	Opts      map[string]string
 	Props     []string
